@@ -140,6 +140,9 @@ LAYOUT = Layout(CLS, FIELDS, aliases={"Key": "Tup"}, views=VIEWS,
                 tags={"rv_live": "hygiene", "w_live": "hygiene", "em_live": "hygiene"})
 
 
+INJ = "all(implies(0 <= a and a < b and b < len(edge_list), canon(edge_list[a]) != canon(edge_list[b])) for a in Int for b in Int)"
+
+
 def C(name, **kw):
     kw.setdefault("properties", ["C01"])
     return Contract(f"{CLS}.{name}", FILE, [CLS, name], self_cls=CLS, **kw)
@@ -336,6 +339,53 @@ CONTRACTS = [
       raises={"ValueError": "order is not None and size is not None"},
       ensures={"dom": "all((k in result) == (k in E(self) and sel(self, k, order, size, up_to)) for k in Tuple)",
                "val": "all(implies(sel(self, k, order, size, up_to), result[k] == M(self, k)) for k in E(self))"}),
+    # ------------------------------------------------------------------ get_edges(subhypergraph=True): extraction by one order / size (C05)
+    # `edges` is the positional listing of the selected keys (each once, order not modelled); `edge_weights` is built element-wise from it,
+    # so the pairing of hyperedges and weights handed to add_edges is part of the proof (add_edges: W_each)
+    Contract(f"{CLS}.get_edges@sub_iso", FILE, [CLS, "get_edges"], self_cls=CLS, properties=["C05"], options={"listing_positional"},
+      params={"order": "Opt[Int]", "size": "Opt[Int]", "up_to": "Bool", "subhypergraph": "Bool", "keep_isolated_nodes": "Bool", "metadata": "Bool"},
+      fixed={"subhypergraph": True, "keep_isolated_nodes": True},
+      result="Obj[Hypergraph]", pure=True, locals={"edges": "Seq[Tup]", "edge_weights": "Seq[Real]"},
+      requires={"wf": "wf(self)"},
+      raises={"ValueError": "order is not None and size is not None"},
+      ensures={"wf": "wf(result)", "weighted": "weighted(result) == weighted(self)",
+               "E": "all((k in E(result)) == (k in E(self) and sel(self, k, order, size, up_to)) for k in Tuple)",
+               "W": "all(W(result, k) == W(self, k) for k in E(result))",
+               "M": "all(M(result, k) == M(self, k) for k in E(result))",
+               "V": "all((n in V(result)) == (n in V(self)) for n in Node)",
+               "NM": "all(NM(result, n) == NM(self, n) for n in V(result))"},
+      invariants={
+          0: {"wf": "wf(h)", "weighted": "weighted(h) == weighted(self)", "V": "all((n in V(h)) == (n in V(self)) for n in Node)",
+              "E": "all((k in E(h)) == (k in E(self) and sel(self, k, order, size, up_to)) for k in Tuple)",
+              "W": "all(W(h, k) == W(self, k) for k in E(h))",
+              "NM": "all(NM(h, n) == NM(self, n) for n in _done0)"},
+          1: {"wf": "wf(h)", "weighted": "weighted(h) == weighted(self)", "V": "all((n in V(h)) == (n in V(self)) for n in Node)",
+              "E": "all((k in E(h)) == (k in E(self) and sel(self, k, order, size, up_to)) for k in Tuple)",
+              "W": "all(W(h, k) == W(self, k) for k in E(h))",
+              "NM": "all(NM(h, n) == NM(self, n) for n in V(h))",
+              "M": "all(M(h, edges[m]) == M(self, edges[m]) for m in Int if 0 <= m and m < _j1)"}}),
+    Contract(f"{CLS}.get_edges@sub", FILE, [CLS, "get_edges"], self_cls=CLS, properties=["C05"], options={"listing_positional"},
+      params={"order": "Opt[Int]", "size": "Opt[Int]", "up_to": "Bool", "subhypergraph": "Bool", "keep_isolated_nodes": "Bool", "metadata": "Bool"},
+      fixed={"subhypergraph": True, "keep_isolated_nodes": False},
+      result="Obj[Hypergraph]", pure=True, locals={"edges": "Seq[Tup]", "edge_weights": "Seq[Real]"},
+      requires={"wf": "wf(self)"},
+      raises={"ValueError": "order is not None and size is not None"},
+      ensures={"wf": "wf(result)", "weighted": "weighted(result) == weighted(self)",
+               "E": "all((k in E(result)) == (k in E(self) and sel(self, k, order, size, up_to)) for k in Tuple)",
+               "W": "all(W(result, k) == W(self, k) for k in E(result))",
+               "M": "all(M(result, k) == M(self, k) for k in E(result))",
+               "V": "all((n in V(result)) == any(k in E(self) and sel(self, k, order, size, up_to) and n in k for k in Tuple) for n in Node)",
+               "NM": "all(NM(result, n) == NM(self, n) for n in V(result))"},
+      invariants={
+          2: {"wf": "wf(h)", "weighted": "weighted(h) == weighted(self)", "V": "all((n in V(h)) == any(k in E(self) and sel(self, k, order, size, up_to) and n in k for k in Tuple) for n in Node)",
+              "E": "all((k in E(h)) == (k in E(self) and sel(self, k, order, size, up_to)) for k in Tuple)",
+              "W": "all(W(h, k) == W(self, k) for k in E(h))",
+              "NM": "all(NM(h, n) == NM(self, n) for n in _done2)"},
+          3: {"wf": "wf(h)", "weighted": "weighted(h) == weighted(self)", "V": "all((n in V(h)) == any(k in E(self) and sel(self, k, order, size, up_to) and n in k for k in Tuple) for n in Node)",
+              "E": "all((k in E(h)) == (k in E(self) and sel(self, k, order, size, up_to)) for k in Tuple)",
+              "W": "all(W(h, k) == W(self, k) for k in E(h))",
+              "NM": "all(NM(h, n) == NM(self, n) for n in V(h))",
+              "M": "all(M(h, edges[m]) == M(self, edges[m]) for m in Int if 0 <= m and m < _j3)"}}),
     C("get_incident_edges", params={"node": "Node", "order": "Opt[Int]", "size": "Opt[Int]"},
       result="Bag[Tup]", pure=True,
       requires={"wf": "wf(self)"},
@@ -536,6 +586,41 @@ CONTRACTS = [
               "V_drop": "all((n in V(h)) == any(n in k for k in E(h)) for n in Node)",
               "NM": "all(NM(h, n) == NM(self, n) for n in _done4)"}},
       properties=["C05"]),
+    # the same extraction selected by a list of orders (sizes are derived as order + 1 in a first loop)
+    Contract(f"{CLS}.subhypergraph_by_orders@orders", FILE, [CLS, "subhypergraph_by_orders"], self_cls=CLS, properties=["C05"],
+      params={"orders": "Bag[Int]", "sizes": "None", "keep_nodes": "Bool"}, fixed={"sizes": None},
+      result="Obj[Hypergraph]", pure=True, locals={"sizes": "Bag[Int]"},
+      requires={"wf": "wf(self)", "no_repeat": "all(count(orders, s) == 1 for s in orders)"},
+      ensures={
+          "wf": "wf(result)", "weighted": "weighted(result) == weighted(self)",
+          "E": "all((k in E(result)) == (k in E(self) and count(orders, len(k) - 1) >= 1) for k in Tuple)",
+          "W": "all(W(result, k) == W(self, k) for k in E(result))",
+          "M": "all(M(result, k) == M(self, k) for k in E(result))",
+          "V_keep": "implies(keep_nodes, all((n in V(result)) == (n in V(self)) for n in Node))",
+          "V_drop": "implies(not keep_nodes, all((n in V(result)) == any(n in k for k in E(result)) for n in Node))",
+          "NM": "all(NM(result, n) == NM(self, n) for n in V(result))",
+      },
+      invariants={
+          0: {"wf": "wf(h)", "weighted": "weighted(h) == weighted(self)", "V": "V(h) == V(self)", "E": "all(k not in E(h) for k in Tuple)",
+              "NM": "all(NM(h, n) == NM(self, n) for n in _done0)"},
+          1: {"sizes": "all(count(sizes, s) == count(_done1, s - 1) for s in Int)"},
+          2: {"wf": "wf(h)", "weighted": "weighted(h) == weighted(self)",
+              "E": "all((k in E(h)) == (k in E(self) and count(_done2, len(k)) >= 1) for k in Tuple)",
+              "W": "all(W(h, k) == W(self, k) for k in E(h))", "M": "all(M(h, k) == M(self, k) for k in E(h))",
+              "V_keep": "implies(keep_nodes, V(h) == V(self))",
+              "V_drop": "implies(not keep_nodes, all((n in V(h)) == any(n in k for k in E(h)) for n in Node))",
+              "NM": "implies(keep_nodes, all(NM(h, n) == NM(self, n) for n in V(h)))"},
+          3: {"wf": "wf(h)", "weighted": "weighted(h) == weighted(self)",
+              "E": "all((k in E(h)) == (k in E(self) and (count(_done2, len(k)) >= 1 or count(_done3, k) >= 1)) for k in Tuple)",
+              "W": "all(W(h, k) == W(self, k) for k in E(h))", "M": "all(M(h, k) == M(self, k) for k in E(h))",
+              "V_keep": "implies(keep_nodes, V(h) == V(self))",
+              "V_drop": "implies(not keep_nodes, all((n in V(h)) == any(n in k for k in E(h)) for n in Node))",
+              "NM": "implies(keep_nodes, all(NM(h, n) == NM(self, n) for n in V(h)))"},
+          4: {"wf": "wf(h)", "weighted": "weighted(h) == weighted(self)",
+              "E": "all((k in E(h)) == (k in E(self) and count(orders, len(k) - 1) >= 1) for k in Tuple)",
+              "W": "all(W(h, k) == W(self, k) for k in E(h))", "M": "all(M(h, k) == M(self, k) for k in E(h))",
+              "V_drop": "all((n in V(h)) == any(n in k for k in E(h)) for n in Node)",
+              "NM": "all(NM(h, n) == NM(self, n) for n in _done4)"}}),
     # copy(): deepcopy is an assumed library contract (equal value, no sharing); proved here: the copy has the same view.
     # Independence under later mutation is checked in the bounded tier.
     C("copy", params={}, result="Obj[Hypergraph]", pure=True, requires={"wf": "wf(self)"},
@@ -581,18 +666,23 @@ CONTRACTS = [
     C("add_edges", params={"edge_list": "Seq[Tup]", "weights": "Opt[Seq[Real]]", "metadata": "Opt[Seq[Meta]]"},
       requires={"wf": "wf(self)",
                 "edges_ok": "all(distinct(edge_list[m]) and len(edge_list[m]) >= 1 for m in Int if 0 <= m and m < len(edge_list))",
-                "weights_len": "implies(weights is not None and weighted(self), len(weights) == len(edge_list))",
                 "metadata_len": "implies(metadata is not None, len(metadata) >= len(edge_list))"},
-      # the only rejection (repeated hyperedges in a weighted batch) happens before anything is modified
-      may_raise={"ValueError": "weighted(self) and weights is not None"},
+      # the only rejections (a hyperedge listed twice, or as many weights as hyperedges missing, in a weighted batch) happen before anything is modified
+      raises={"ValueError": "weighted(self) and weights is not None and (len(weights) != len(edge_list) or "
+                            "any(0 <= a and a < b and b < len(edge_list) and edge_list[a] == edge_list[b] for a in Int for b in Int))"},
       modifies=["_adj", "_node_metadata", "_edge_list", "_reverse_edge_list", "_weights", "_edge_metadata", "_next_edge_id"],
       ensures={"wf": "wf(self)",
                "V": "all((n in V(self)) == (n in V(old(self)) or any(0 <= m and m < len(edge_list) and n in edge_list[m] for m in Int)) for n in Node)",
                "E": "all((k in E(self)) == (k in E(old(self)) or any(0 <= m and m < len(edge_list) and canon(edge_list[m]) == k for m in Int)) for k in Tuple)",
                # weighted: every insertion adds its weight (1 without a weight list), also for hyperedges repeated in the list
                "W": "implies(weighted(self), all(W(self, k) == (W(old(self), k) if k in E(old(self)) else 0) + psum(edge_list, weights, len(edge_list), k) for k in E(self)))",
+               # for a list without repeated hyperedges the fold collapses: position m adds exactly its own weight
+               "W_each": f"implies(weighted(self) and {INJ}, all(W(self, canon(edge_list[m])) == (W(old(self), canon(edge_list[m])) if canon(edge_list[m]) in E(old(self)) else 0) "
+                         "+ (weights[m] if weights is not None else 1) for m in Int if 0 <= m and m < len(edge_list)))",
                **NODE_MD_KEPT, **SAME_WEIGHTED},
       invariants={0: {
+          "P0": "all(implies(all(implies(0 <= m and m < _j0, canon(edge_list[m]) != k) for m in Int), psum(edge_list, weights, _j0, k) == 0) for k in Tuple)",
+          "P1": f"implies({INJ}, all(psum(edge_list, weights, _j0, canon(edge_list[m])) == (weights[m] if weights is not None else 1) for m in Int if 0 <= m and m < _j0))",
           "i": "i == _j0", "j": "0 <= _j0 and _j0 <= len(edge_list)", "wf": "wf(self)",
           "V": "all((n in V(self)) == (n in V(old(self)) or any(0 <= m and m < _j0 and n in edge_list[m] for m in Int)) for n in Node)",
           "E": "all((k in E(self)) == (k in E(old(self)) or any(0 <= m and m < _j0 and canon(edge_list[m]) == k for m in Int)) for k in Tuple)",
